@@ -2,9 +2,23 @@
 the orphan clause at the controller level (ObjectSets with local and delegated phases deleted with orphan propagation)."""
 import phasecheck as pc
 import json
-import setgen, setlib as sl, vlib
+import setgen, setlib as sl, vlib, dlglib as dl, C15 as dlg
 
 ORPHAN_ID = "C05 ObjectSet teardown deletes a member or an ObjectSetPhase under orphan propagation, or an ObjectSetPhase it does not control"
+DLG_ID = ("C05 delegated teardown: a phase object deleted with orphan propagation has its members deleted, or an ObjectSetPhase is "
+          "deleted without having been read from the API server in this pass and found controlled by the ObjectSet")
+
+
+def delegated_teardowns(seed, tier):
+    """Passes of the real ObjectSetPhase and ObjectSet controllers on phase objects deleted with orphan propagation and on
+    teardowns during which the cached client still serves an old incarnation of the phase object, plus ObjectSets with
+    phase objects in arbitrary states (deleting / orphan finalizer among them)."""
+    r = vlib.rng(seed, "C05d")
+    scs = dl.teardown_corpus(r)
+    for i in range(6 if tier == "quick" else 120):
+        scs.append(dl.scenario_phase_orphan(r, r.random() < 0.3, "annot" if i % 3 == 2 else "native", with_set=r.random() < 0.7))
+        scs.append(dl.scenario_lagged_teardown(r, r.random() < 0.3, r.choice(["recreated", "reowned", "released"]), archive=r.random() < 0.4))
+    return [dl.place(sc) for sc in scs]
 
 
 def orphan_sets(seed, n):
@@ -37,6 +51,11 @@ def going_sets(seed, n):
 
 def check(run, tier, seed, replay=None):
     rsc = json.load(open(replay))["replay"]["scenario"] if replay else None
+    if rsc is not None and "stages" in rsc:
+        vlib.std_proof_stage(run, "C05")
+        n, _, _, _ = dlg.delegation_stage(run, "C05", [rsc], id_mon=DLG_ID, id_twin=DLG_ID, id_own=DLG_ID)
+        run.cov["evaluations"] = n
+        return
     set_replay = rsc is not None and "target" in rsc
     scs = [] if set_replay else pc.teardown_table(tier) + pc.random_teardowns(seed, 300 if tier == "quick" else 6000)
     pc.phase_check(run, "C05", tier, seed, None if set_replay else replay, scs, "C05Corr.judge",
@@ -60,3 +79,6 @@ def check(run, tier, seed, replay=None):
         elif not agree:
             run.violation("corr:C05/ObjectSet controller model and implementation differ",
                           {"correspondence": "SetCorr.agree", "scenario": sc, "impl": obs}, False)
+    if not replay:
+        n, _, _, _ = dlg.delegation_stage(run, "C05", delegated_teardowns(seed, tier), id_mon=DLG_ID, id_twin=DLG_ID, id_own=DLG_ID)
+        run.cov["evaluations"] += n
